@@ -227,6 +227,23 @@ CLAIMED = {
         "technique": "Lean 4 proof of the hoist-step lemmas + kernel-checked counterexample for the old rule; "
                      "differential correspondence + independent XML reader as oracle",
     },
+    "C18": {
+        "text": "PARTIAL proof. Lean model of MultiRef.process (catalogue by id, root filtering, href substitution "
+                "with the referrer taking over children / text / attributes except id). Proved for every catalogue, "
+                "element and nesting budget: content without references is untouched; one reference level "
+                "(<r href='#k'/> + <multiRef id='k'>C</multiRef> reads as <r>C</r> with C's attributes); a dangling "
+                "href leaves only that element unresolved; the body keeps exactly its SOAP roots. Arbitrary nesting "
+                "and the decoding itself are checked: rpc/encoded reply values (structs, nested structs, arrays of "
+                "simple and struct items, empty arrays) are written inlined and with random out-lining (any subset, "
+                "shared targets, nested references, id spellings, placement, marked/unmarked roots, dangling hrefs) "
+                "and must decode equal through the real client; MultiRef.process is compared with the model on every "
+                "generated body; arrayType typing of untyped items and empty arrays checked.",
+        "design_ref": "DESIGN.md section 6 C18",
+        "note": "known finding D16 (unmarked multiRef placed before the response); references are assumed acyclic "
+                "and placed on value elements.",
+        "technique": "Lean 4 proof (mutual structural recursion over the tree with a nesting budget) + differential "
+                     "correspondence + decode-equality oracle",
+    },
 }
 
 NOT_YET = "check not built yet in this round (design in DESIGN.md section 6); not claimed"
